@@ -75,6 +75,10 @@ class InlineDefinedFuns:
         return is_defined_fun(node)
 
     def mutations(self, node):
+        if is_recursive_defined_fun(node):
+            # inlining does not get rid of the function: it could be repeated
+            # forever (only happens for ill-formed inputs)
+            return []
         if node.id in map(lambda n: n.id, nodes.dfs(get_defined_fun(node))):
             # we are about to inline the function into its own body
             return []
